@@ -7,6 +7,7 @@ import (
 	"encoding/json"
 	"fmt"
 	"io"
+	"os"
 	"reflect"
 	"sort"
 	"strconv"
@@ -561,6 +562,35 @@ func checkC20(c CaseC20, info *Info) *Failure {
 			return mism("j2x.JsonNewXml", string(x), string(wnx))
 		}
 	}
+	// the new-map wrappers with NO key pairs: the projection of nothing is the empty Map, not the document
+	{
+		em, emerr := vm.NewMap()
+		var ej, ex []byte
+		var exerr error
+		if emerr == nil {
+			ej, _ = em.Json()
+			ex, exerr = em.Xml()
+		}
+		if j, e := j2x.JsonNewJson(jb); !eqErr(e, emerr) || !bytes.Equal(j, ej) {
+			return mism("j2x.JsonNewJson (no key pairs)", string(j), string(ej))
+		}
+		if x, e := j2x.JsonNewXml(jb); (emerr == nil && !eqErr(e, exerr)) || (e == nil && !bytes.Equal(x, ex)) {
+			return mism("j2x.JsonNewXml (no key pairs)", string(x), string(ex))
+		}
+		cem, cemerr := core.NewMap()
+		var cej, cex []byte
+		var cexerr error
+		if cemerr == nil {
+			cej, _ = cem.Json()
+			cex, cexerr = cem.Xml()
+		}
+		if j, e := x2j.XmlNewJson(doc); !eqErr(e, cemerr) || !bytes.Equal(j, cej) {
+			return mism("x2j.XmlNewJson (no key pairs)", string(j), string(cej))
+		}
+		if x, e := x2j.XmlNewXml(doc); (cemerr == nil && !eqErr(e, cexerr)) || (e == nil && !bytes.Equal(x, cex)) {
+			return mism("x2j.XmlNewXml (no key pairs)", string(x), string(cex))
+		}
+	}
 	{
 		cu := mxj.Map(copyMap(c.Value))
 		_, uerr := cu.UpdateValuesForPath(map[string]interface{}{c.Key: "NEWVAL"}, vpath, sp...)
@@ -686,6 +716,49 @@ func checkC20bulk(c CaseC20, doc []byte, mism func(string, interface{}, interfac
 					return mism(name+": what the same reader yields afterwards", gotRest, wantRest)
 				}
 			}
+		}
+	}
+	if c.Bulk == 2 {
+		// the reader forms called repeatedly on one *os.File: each call consumes exactly the next document, like the core reader
+		if fh, ferr := os.CreateTemp(os.Getenv("VERIF_SCRATCH"), "c20-*.xml"); ferr == nil {
+			name := fh.Name()
+			fh.Write(data)
+			fh.Close()
+			defer os.Remove(name)
+			for _, form := range []string{"ReaderValuesForTag", "ReaderValuesFromTagPath"} {
+				wf, e1 := os.Open(name)
+				cf, e2 := os.Open(name)
+				if e1 != nil || e2 != nil {
+					break
+				}
+				for i := 0; i < 6; i++ {
+					cm, cerr := mxj.NewMapXmlReader(cf)
+					var got, want []interface{}
+					var gerr error
+					if form == "ReaderValuesForTag" {
+						got, gerr = x2jw.ReaderValuesForTag(wf, c.Tag)
+						if cerr == nil {
+							want = x2jw.ValuesForKey(cm, c.Tag)
+						}
+					} else {
+						got, gerr = x2jw.ReaderValuesFromTagPath(wf, strings.Join(c.DPath, "."), true)
+						if cerr == nil {
+							want = x2jw.ValuesFromKeyPath(cm, strings.Join(c.DPath, "."), true)
+						}
+					}
+					if (gerr == nil) != (cerr == nil) || (gerr == nil && !compareVals(got, want, true)) {
+						wf.Close()
+						cf.Close()
+						return mism(fmt.Sprintf("x2j-wrapper.%s, call %d on one *os.File holding four documents", form, i+1), fmt.Sprint(sortedCanon(got), gerr), fmt.Sprint(sortedCanon(want), cerr))
+					}
+					if cerr != nil {
+						break
+					}
+				}
+				wf.Close()
+				cf.Close()
+			}
+			info.Class("reader wrappers called repeatedly on a file")
 		}
 	}
 	info.ClassIf(c.Bulk >= 1 && c.Bulk <= 3, "stream wrapper stopped early, reader used again")
